@@ -1268,3 +1268,128 @@ CLAIMS += [
           "same octets whatever their values)",
           "any number of octets (loop cut), every octet value", configs=("fast",), also=("C07", "C13", "C17")),
 ]
+
+
+# ----------------------------------------------------------------------------- vectors: opener, separated elements, closer
+
+def claim_vector_structure(cx, res, kf):
+    """Printer::write_vector and write_scheme_vector (generic vectors and R6RS / R7RS byte vectors): begin_vector(kind) first,
+    then per element: separator iff not the first, the element, end_seq_element; end_vector last; errors end the output."""
+    from . import confirm as CF
+    onm = CF.confirm(("print",), res)
+    total = {"step": 0, "end": 0}
+    for fname in ("write_scheme_vector", "Printer::<W, F>::write_vector"):
+        fn = cx.fns.get(fname) or C.resolve_callee(cx, fname)
+        if fn is None:
+            res.error = "%s not found" % fname
+            return
+        eng = C.make_engine(cx, [], loop_mode="cut", timeout_s=120, max_paths=5000)
+
+        def h_ident(engine, st, fr, callee, argv, m):
+            return argv[0] if argv else Opaque("Iter", "iter", {})
+
+        def h_next(engine, st, fr, callee, argv, m):
+            n = st.notes.get("nel", 0) + 1
+            st.notes["nel"] = n
+            more = z3.Bool("elem_%d_more" % n)
+            idx = z3.BitVec("elem_%d_index" % n, 64)
+            st.events.append(("next_elem", more, idx))
+            return S.mk_option(more, Agg("tuple", None, [Int(idx, "usize"), Opaque("Item", "elem%d" % n, {})]))
+
+        def h_output(engine, st, fr, callee, argv, m):
+            err = z3.Bool("out_%d_err" % next(engine.fresh))
+            st.events.append(("fcall", "output", tuple(argv[1:]), err))
+            return S.mk_result(engine, err, UnitV(), Opaque("io::Error", "sink", {}))
+        stubs = [
+            (re.compile(r"^<I as IntoIterator>::into_iter$"), h_ident),
+            (re.compile(r"^<<I as IntoIterator>::IntoIter as Iterator>::enumerate$"), h_ident),
+            (re.compile(r"^<Enumerate<<I as IntoIterator>::IntoIter> as IntoIterator>::into_iter$"), h_ident),
+            (re.compile(r"^<Enumerate<<I as IntoIterator>::IntoIter> as Iterator>::next$"), h_next),
+            (re.compile(r"^<O as FnMut<.*>>::call_mut$"), h_output),
+        ]
+        eng.stubs = stubs + print_stubs(cx, eng) + S.COMBINATOR_STUBS + S.CORE_STUBS
+        VT = cx.enums["VectorType"]
+        info = {}
+
+        def init(e, st, fr):
+            st.heap["fmt"] = Opaque("F", "formatter")
+            st.heap["writer"] = Opaque("W", "writer")
+            st.heap["printer"] = Agg("struct", "Printer", [Opaque("W", "writer"), Opaque("F", "formatter")])
+            kd = z3.BitVec("vkind", 64)
+            info["kind"] = kd
+            for a in fn.args:
+                ty = fn.local_ty.get(a, "").strip()
+                if ty in ("&mut F",):
+                    fr.locals[a] = Ref(("H", "fmt"))
+                elif ty == "&mut W":
+                    fr.locals[a] = Ref(("H", "writer"))
+                elif "Printer" in ty:
+                    fr.locals[a] = Ref(("H", "printer"))
+                elif "VectorType" in ty:
+                    fr.locals[a] = EnumV("VectorType", kd, {})
+                else:
+                    fr.locals[a] = Opaque(ty, "arg", {})
+            st.notes["in"] = ()
+            return [z3.ULT(kd, bv64(len(VT)))]
+
+        def havoc(e, st, fr, bb):
+            st.notes["in"] = st.notes["in"] + ((bb, {"nev": len(st.events)}),)
+            return []
+        eng.havoc_hook = havoc
+        terms = eng.explore(fn.name, init)
+        res.absorb(eng)
+        check_discipline(res, eng, terms, fname)
+        pre_done = False
+        for t in terms:
+            st = t.state
+            pc = list(st.pc)
+            if t.kind == "PANIC" or not st.notes["in"]:
+                continue
+            hb, rec = st.notes["in"][-1]
+            pre = [e for e in st.events[:st.notes["in"][0][1]["nev"]] if e[0] == "fcall"]
+            if not pre_done:
+                pre_done = True
+                okpre = len(pre) == 1 and pre[0][1] == "begin_vector"
+                if not okpre:
+                    res.must_be_unsat(pc, "%s: before the first element %r is emitted instead of just the vector opener" % (fname, [e[1] for e in pre]), onm)
+                else:
+                    kv = pre[0][2][0]
+                    if isinstance(kv, EnumV):
+                        res.must_be_unsat(pc + [kv.discr != info["kind"]], "%s: the opener is asked for another vector kind than the one being printed" % fname, onm)
+            evs = st.events[rec["nev"]:]
+            nx = [e for e in evs if e[0] == "next_elem"]
+            calls = [e for e in evs if e[0] == "fcall"]
+            names = [c[1] for c in calls]
+            if not nx:
+                continue
+            more, idx = nx[0][1], nx[0][2]
+            if t.kind == "LOOP_BACK":
+                total["step"] += 1
+                if names != ["begin_seq_element", "output", "end_seq_element"]:
+                    res.must_be_unsat(pc, "%s: an element is printed with the call sequence %r" % (fname, names), onm)
+                    continue
+                first = calls[0][2][0]
+                res.must_be_unsat(pc + [z3.Not(z3.And(more, first.e == (idx == 0)))], "%s: the separator before an element does not depend on `index == 0`" % fname, onm)
+            elif t.kind == "RETURN" and K.classify_return(eng, t)[0] in ("ok", "sym"):
+                kind, payload = K.classify_return(eng, t)
+                extra = [payload.discr == 0] if kind == "sym" else []
+                if extra and res.solve(pc + extra)[0] != z3.sat:
+                    continue
+                total["end"] += 1
+                if names != ["end_vector"]:
+                    res.must_be_unsat(pc + extra, "%s: after the last element %r is called instead of end_vector" % (fname, names), onm)
+                res.must_be_unsat(pc + extra + [more], "%s: vector closed although elements remain" % fname, onm)
+    res.vacuity.append(("vector element steps", total["step"] >= 2))
+    res.vacuity.append(("vector ends", total["end"] >= 2))
+
+
+def bv64(v):
+    return z3.BitVecVal(v, 64)
+
+
+CLAIMS += [
+    Claim("c01_print_vector_structure", "C01", "quick", claim_vector_structure,
+          "vectors and R6RS / R7RS byte vectors: the opener for exactly the kind being printed, then for each element a separator "
+          "iff it is not the first, the element, and finally the closer; output stops at the first failed write",
+          "any number of elements (loop cut, base case = opener only), arbitrary element printer", configs=("fast",), also=("C02", "C07", "C13")),
+]
